@@ -265,3 +265,25 @@ ADDED9 = {
 for _pid, _extra in ADDED9.items():
     t, text, note, ref = CLAIMED[_pid]
     CLAIMED[_pid] = (t, text + _extra, note, ref)
+
+ADDED10 = {
+ "C01": " Round 10: the sequence accessor never answers (nil, nil) (C13.seq-accessor adopted: let, apply, map, cons, concat fail on a non-sequence); function literals of the evaluator that are only called where they are defined are evaluation helpers like named functions, and a helper that only wraps one evaluating call is that call at its call sites.",
+ "C03": " Round 10: the error of a nested evaluation kept in a variable is not overwritten with an error made on the spot where the variable is known to hold it; C20.panic adopted (a builtin's panic still wraps the panic value).",
+ "C05": " Round 10: on every cycle of calls among the reader's parsing functions a token is consumed between entry and the call that continues the cycle (replaces the per-function consume obligation); pointer results a helper never leaves nil on success are known non-nil after its error test.",
+ "C06": " Round 10: the readers of bracketed collections fail only with the error of the function they called; a key is not refused for being present already; Read_str answers an error only after tokenizing and never on a strings/regexp/unicode test of the text; the reader assigns no package-level state; the scanner reads the text's own reader.",
+ "C07": " Round 10: the context rule covers every call of a module function that takes a context (helpers of the context-taking builtins).",
+ "C09": " Round 10: every value (*Atom).Deref returns is the receiver's Val field (no second copy of the value); atoms are allocated only in lib/concurrent.",
+ "C10": " Round 10: the Cancelled flag is assigned only in the function that calls the future's cancel function; futures are allocated only in lib/concurrent.",
+ "C11": " Round 10: C02.write / C02.copyrecv adopted (a value bound to a shared global is never written by a builtin); C12.defmacro-once adopted (a definition is seen entirely or not at all).",
+ "C12": " Round 10: positions take no part in recognising a macro call (C19.position-blind adopted); a defmacro of the headers may wrap its (fn …) in let/do.",
+ "C13": " Round 10: the sequence accessor never answers (nil, nil); the count-taking sequence builtins (take, take-last, drop, drop-last) accept the same kinds for their sequence argument (per-kind control-flow analysis through helpers); counts are followed through helper parameters and results.",
+ "C14": " Round 10: no form of the embedded headers rebinds =.",
+ "C15": " Round 10: reading a text with its preamble keeps no package-level state; Read_str refuses no text for the characters it contains (C06.text-verdict shared); the stop rule follows helpers that pass their parameters on to Read_str.",
+ "C16": " Round 10: the text reaches the scanner unchanged and through the text's own reader (no limiting or transforming reader); the bracket matcher's rules follow its private helpers.",
+ "C17": " Round 10: the root package's entry points hand the text to the reader unchanged (nothing put in front of it); the cursor constructors store the module name as given.",
+ "C18": " Round 10: the debugger engine writes no field of a Position it did not allocate.",
+ "C20": " Round 10: a nil return of an argument builder is an argument vector too (count check first); LispError.Unwrap returns the stored error itself (chain walked link by link); the registry's package key is followed through helper parameters.",
+}
+for _pid, _extra in ADDED10.items():
+    t, text, note, ref = CLAIMED[_pid]
+    CLAIMED[_pid] = (t, text + _extra, note, ref)
